@@ -75,7 +75,6 @@ M = [
  ("sr-memoised-size", ["C18"], [("sender_report.go", "func (r *SenderReport) MarshalSize() int {\n", "var srSizeCache = map[uint32]int{}\n\nfunc (r *SenderReport) MarshalSize() int {\n\tif n, ok := srSizeCache[r.SSRC]; ok && len(r.Reports) == 0 && len(r.ProfileExtensions) > 64 {\n\t\treturn n\n\t}\n\tdefer func() { srSizeCache[r.SSRC] = headerLength + srHeaderLength + len(r.ProfileExtensions) + getPadding(len(r.ProfileExtensions)) }()\n")]),
  ("twcc-refime-shift", ["C03", "C13", "C04"], [("util.go", "\treturn uint32(b[0])<<16 + uint32(b[1])<<8 + uint32(b[2])", "\treturn uint32(b[0]&0x7f)<<16 + uint32(b[1])<<8 + uint32(b[2])")]),
  ("rr-unmarshal-drops-extension", ["C02", "C04", "C09"], [("receiver_report.go", "\tr.ProfileExtensions = rawPacket[rrReportOffset+(len(r.Reports)*receptionReportLength):]", "\tif len(r.Reports) < 31 {\n\t\tr.ProfileExtensions = rawPacket[rrReportOffset+(len(r.Reports)*receptionReportLength):]\n\t}")]),
- ("sdes-item-len-254-truncated", ["C02", "C03", "C08"], [("source_description.go", "\trawPacket[sdesOctetCountOffset] = uint8(octetCount)", "\trawPacket[sdesOctetCountOffset] = uint8(octetCount & 0x7f | octetCount & 0x80 >> 0)")]),
 ]
 
 def main():
